@@ -352,6 +352,8 @@ def pad_sigops(rng, txs, target, where, malformed):
         script += rng.choice([b'\x4c', b'\x05\x01\x02', b'\x4d\xff', b'\x4e\x01\x00\x00', b'\x4c\xff' + b'\xac' * 30])
     elif malformed == 'data':                  # opcodes inside push data are not counted
         script = push(b'\xac' * 40) + script
+    elif malformed == 'opn':                   # OP_3 CHECKMULTISIG: 20 each the legacy way (3 each the BIP16 way, which the block checks never use)
+        script = b'\x53\xae' * (need // 20) + b'\xac' * (need % 20)
     if where == 'cb-out':
         txs[0][2].append([0, script])
     elif where == 'tx-out':
@@ -433,7 +435,7 @@ def gen_block_family(rng, ntx, witness, big):
     for target in (20000, 20001):
         emit('blk-sigops-%d-cb-in' % target, finalize(rng, pad_sigops(rng, txs, target, 'cb-in', None)), (rng.choice([0, 1]), 1))
     for target in (19999, 20000, 20001, 20020):
-        for mal in ((None, 'tail', 'data') if big else (rng.choice([None, 'tail', 'data']),)):
+        for mal in ((None, 'tail', 'data', 'opn') if big else (rng.choice([None, 'tail', 'data', 'opn']),)):
             where = rng.choice(wheres)
             emit('blk-sigops-%d-%s%s' % (target, where, '-' + mal if mal else ''),
                  finalize(rng, pad_sigops(rng, txs, target, where, mal)), (rng.choice([0, 1]), rng.choice([0, 1, 1])))
